@@ -232,3 +232,17 @@ Lemma cond_graft_swap a b u v w :
   (dotq b (Phi a (Gr (Gr u v) w)) * gamma (Gr (Gr u v) w) ==
    dotq b (Phi a (Gr (Gr u w) v)) * gamma (Gr (Gr u w) v))%Q.
 Proof. rewrite (dotq_eqv_r b _ _ (Phi_graft_swap a u v w)), gamma_graft_swap. reflexivity. Qed.
+
+(* ---- quadrature conditions on the stored nodes (finite domain: shipped methods, k <= order) ---- *)
+Lemma methods_quad_ok : forallb quad_ok methods = true.
+Proof. vm_compute. reflexivity. Qed.
+
+Lemma quadrature_all :
+  forall t, In t methods -> forall b p, In (b, p) (rows t) -> forall k, 1 <= k <= p ->
+    (dotq b (map (fun x => qpow x (k - 1)) (t_c t)) * inject_Z (Z.of_nat k) == 1)%Q.
+Proof.
+  intros t Ht b p Hin k Hk. pose proof methods_quad_ok as H. rewrite forallb_forall in H.
+  specialize (H t Ht). unfold quad_ok in H. rewrite forallb_forall in H. specialize (H _ Hin).
+  unfold quad_row_ok in H. cbn [fst snd] in H. rewrite forallb_forall in H.
+  apply Qeq_bool_eq. apply H. apply in_seq. lia.
+Qed.
